@@ -616,6 +616,64 @@ def native_replay(exe, harness, vals, replay_path):
     return "reproduced", out
 
 
+# ----------------------------------------------------------------------------- lowering self-test
+def selftest(unit_names, runs, seed):
+    """Differential validation of nop2c: every harness of the unit is run natively twice on the same random
+    draws — once as the original C++ (g++) and once as the lowered C (gcc) — and the sets of failed vt_check
+    names and the exit status must agree."""
+    import random
+    workdir = os.path.join(WORK, "selftest-%d" % os.getpid())
+    shutil.rmtree(workdir, ignore_errors=True)
+    os.makedirs(workdir)
+    rc, so, se, dt = run([os.path.join(VERIF, "tools", "build.sh")], timeout=900, mem=False)
+    gen_headers(workdir)
+    rng = random.Random(seed)
+    total = disagreements = 0
+    programs = 0
+    samples = []
+    try:
+        for unit in unit_names:
+            sp = parse_spec(unit)
+            if sp.cxxflags:
+                log("  selftest: unit %s uses std models when lowered; the native C++ side uses the real library — compared anyway" % unit)
+            u = lower(unit, workdir, sp.cxxflags)
+            harnesses = [f["c"] for f in u.map["functions"] if f["main"] and f["body"] and f["c"].startswith("h_")]
+            if not harnesses:
+                continue
+            table = "\nstruct vt_harness { const char* name; void (*fn)(void); };\nstruct vt_harness vt_harness_table[] = {%s {0, 0}};\n" % "".join('{"%s", %s},' % (h, h) for h in harnesses)
+            cpath = os.path.join(workdir, unit + ".lowered.c")
+            open(cpath, "w").write(u.text.replace("/*@CONTRACTS@*/", "") + table)
+            exe_c = os.path.join(workdir, unit + ".lowered")
+            rc, so, se, dt = run(["gcc", "-O0", "-w", "-DVT_NATIVE_C", "-I", os.path.join(VERIF, "spec"), "-I", workdir, cpath, os.path.join(VERIF, "spec", "vt_native_c.c"), "-o", exe_c], timeout=600, mem=False)
+            if rc != 0:
+                raise Undecided("selftest: gcc on lowered %s failed: %s" % (unit, se[-1500:]))
+            exe_cpp = native_build(unit, workdir, sanitize=False)
+            for h in harnesses:
+                programs += 1
+                for k in range(runs):
+                    rp = os.path.join(workdir, "r.replay")
+                    mode = k % 3
+                    with open(rp, "w") as fh:
+                        for i in range(400):
+                            v = rng.getrandbits(64) if mode == 0 else (rng.choice([0, 1, 2, 3, 127, 128, 255, 256, 65535, 65536, 2**31 - 1, 2**31, 2**32 - 1, 2**63, 2**64 - 1]) if mode == 1 else rng.getrandbits(rng.choice([1, 2, 3, 8])))
+                            fh.write("%d\n" % v)
+                    outs = []
+                    for exe in (exe_cpp, exe_c):
+                        p = subprocess.run([exe, h, rp], stdout=subprocess.PIPE, stderr=subprocess.STDOUT, timeout=60)
+                        failed = sorted(set(l for l in p.stdout.decode("utf-8", "replace").split("\n") if l.startswith("CHECK FAILED")))
+                        outs.append((p.returncode if p.returncode in (0, 1, 77) else "crash%d" % p.returncode, failed))
+                    total += 1
+                    if outs[0] != outs[1]:
+                        disagreements += 1
+                        log("  selftest DISAGREE unit=%s harness=%s: c++=%s lowered=%s" % (unit, h, outs[0], outs[1]))
+                        shutil.copy(rp, os.path.join(VERIF, "replays", "selftest.%s.%s.replay" % (unit, h)))
+                    elif len(samples) < 12:
+                        samples.append({"unit": unit, "harness": h, "outcome": str(outs[0][0]), "failed_checks": outs[0][1][:2]})
+    finally:
+        shutil.rmtree(workdir, ignore_errors=True)
+    return programs, total, disagreements, samples
+
+
 # ----------------------------------------------------------------------------- driver
 def all_units_names():
     return all_units()
@@ -925,6 +983,18 @@ def main():
         if tier not in ("quick", "thorough"):
             tier = "quick"
         return check(prop, tier, only, keep)
+    if a[0] == "selftest":
+        units_ = a[1].split(",") if len(a) > 1 and a[1] != "all" else [u_ for u_ in all_units() if u_ not in ("io", "census")]
+        runs_ = int(a[2]) if len(a) > 2 else 30
+        os.makedirs(os.path.join(VERIF, "replays"), exist_ok=True)
+        try:
+            programs, total, dis, samples = selftest(units_, runs_, int(os.environ.get("VERIF_SEED", "1") or 1))
+        except Undecided as e:
+            print("UNDECIDED selftest: %s" % e)
+            return 2
+        print("nop2c selftest: %d harnesses, %d paired executions, %d disagreements" % (programs, total, dis))
+        json.dump({"harnesses": programs, "paired_executions": total, "disagreements": dis, "samples": samples}, open(os.path.join(VERIF, "evidence", "nop2c_selftest.json"), "w"), indent=1)
+        return 0 if dis == 0 else 2
     if a[0] == "list":
         for unit in all_units():
             sp = parse_spec(unit)
